@@ -159,6 +159,11 @@ func (ctx *Ctx) genFunc(fn *ssa.Function, ct *Contract, houdini map[int][]*Claus
 				}
 			}
 		}
+		for _, ac := range ct.AtCall {
+			if g.atReturnUsed["at-call:"+ac.Match+"::"+ac.Clause.Text] == 0 {
+				g.specErrs = append(g.specErrs, fmt.Sprintf("%s:%d: at-call %q matches no call site", ct.File, ac.Clause.Line, ac.Match))
+			}
+		}
 		for _, c := range ct.AtReturn {
 			if g.atReturnUsed[c.Text] == 0 {
 				g.specErrs = append(g.specErrs, fmt.Sprintf("%s:%d: at-return %q applies to no return site", ct.File, c.Line, c.Text))
